@@ -38,6 +38,16 @@ CHECKS = {
                 tech="explicit-state exhaustive exploration of operation histories on the implementation"),
 }
 
+HWREF = "hardware alphabet of mc/spec/hw.py (one architecture skeleton, <= 2-3 component bindings per Einsum); stand-in Metrics/Traffic/Compute/Format/*Intersector models; reference HiFiber model"
+CHECKS["C11"] = dict(engine="E-SPEC x E-DATA", cat="exploration",
+                     text="Base Einsums/mappings (matmul in several loop orders, shape/occupancy/flatten mappings, 3-operand product, sum, broadcast, convolution, gamma-like take cascade) x every combination of component bindings from the hardware alphabet (DRAM->Buffet lazy/eager with every evict-on, DRAM->Cache, compute, each intersector type on each co-iterated rank with each leader, sequencers, mergers) x formats; every accepted configuration is executed in metrics mode AND in plain mode on all presence patterns with inert stand-ins; tensors must equal the dense evaluation. Explicit output shapes are enforced by the (shape-aware) reference model.",
+                     note=HWREF, tech="bounded exhaustive enumeration of configurations x inputs against a reference model")
+CHECKS["C12"] = dict(engine="E-SPEC", cat="exploration",
+                     text="The same hardware universe plus the repository's accelerator specifications, compiled in metrics mode; a static producer/consumer cross-reference over the emitted text checks the beginCollect/endCollect bracket of every loop nest, that every consumed trace file is produced earlier in the same Einsum's section (registration with the same prefix, rank and type, or an emitted filter step; eager traces also need the <fiber>.trace call), that consumeTrace targets are registered consumable and that every queried intersector model is created before the loops and fed within the collection.",
+                     note=HWREF, tech="bounded exhaustive enumeration of configurations; static cross-reference oracle")
+CHECKS["C14"] = dict(engine="E-SPEC x E-HIST", cat="exploration",
+                     text="Single-Einsum hardware universe under several instance/frequency/bandwidth assignments plus all cascades of 2(-3) Einsum events over two hardware configurations (every fusion situation); the emitted program runs with stand-in models that hand out a distinct prime for every count; the metrics dictionary is compared with an independent roll-up: (A) time = sum over blocks of max over components of summed component times, over all component times present; (B) each component time = counts / (rate x instances); (C) every count handed out reaches metrics exactly once.",
+                     note=HWREF + "; float division compared with exact rationals at 1e-9 relative tolerance", tech="bounded exhaustive enumeration of configurations/histories; execution with prime-valued stand-ins against an independent roll-up")
 CHECKS["C18"] = dict(engine="E-SPEC", cat="exploration",
                      text="For each of the 15 legality rules of the statement, every injection site in a 13-member legal base set (products, sums, take, index math, 1-3 level stacks, flatten tuples of 2-3 ranks, a two-Einsum metrics cascade); parsing + HiFiber(...) must raise ValueError and return no text; the bases themselves must compile.",
                      note="injection sites bounded by the base set", tech="exhaustive fault/violation injection over a finite base set")
